@@ -92,6 +92,8 @@ type View struct {
 	ignoreOffsets map[uint64]struct{}
 	// Hook, if set, runs before every storage call of this view ("send"/"get").
 	Hook func(op string)
+	// FailSends: the next FailSends calls of Send fail with an error and append nothing (a board that is unreachable for a moment)
+	FailSends int
 }
 
 var _ storage.Storage = (*View)(nil)
@@ -103,6 +105,15 @@ func (b *Board) NewView(name string) *View {
 func (v *View) Send(msgs ...storage.Message) error {
 	if v.Hook != nil {
 		v.Hook("send")
+	}
+	v.mu.Lock()
+	fail := v.FailSends > 0
+	if fail {
+		v.FailSends--
+	}
+	v.mu.Unlock()
+	if fail {
+		return fmt.Errorf("board unreachable (injected fault)")
 	}
 	if v.board.SendHook != nil {
 		v.board.SendHook(v.Name, msgs)
